@@ -677,6 +677,15 @@ static void run_op(const std::vector<std::string> &w, const std::string &, out &
         if (!m.empty()) o.tag("henc");
         for (uint8_t x : m) if (x >= 0x80) { o.tag("highbit"); break; }
         if (c_text.find_first_of("ABCDEF") != std::string::npos) o.tag("letters");
+        {
+            // round 3b: in-place ENCODING (out == indata, data at the front of a 2n-byte buffer) is not promised by
+            // anything (the present loop stores two characters per byte read and overruns its own input for
+            // n >= 2); what the build does is a tag
+            exact_buf both(2 * m.size());
+            if (!m.empty()) memcpy(both.p, m.data(), m.size());
+            hexascii_encode(both.p, (int)m.size(), both.p);
+            o.tag(std::string((char *)both.p, 2 * m.size()) == ref ? "enc-inplace-same" : "enc-inplace-differs");
+        }
     }
     else if (op == "hdec")
     {
